@@ -17,7 +17,7 @@ Definition exn_of_tag (t : Z) : exn :=
   | _ => MemcacheUnexpectedCloseError end.
 
 Definition outcome_of (d : dyn) : outcome :=
-  match d with DTuple [DInt t] => OFail (exn_of_tag t) | _ => ONormal end.
+  match d with DTuple [DInt t] => OFail (exn_of_tag t) | DTuple [DInt t; DInt _] => OLate (exn_of_tag t) | _ => ONormal end.
 (* recv choices: DInt n > 0 chunk of at most n bytes; DInt 0 EINTR; (tag,) raise; None end of stream *)
 Definition choice_of (d : dyn) : choice :=
   match d with
